@@ -6,6 +6,11 @@ Core Lean only.  Re-uses the byte-string helpers of C31 (`dec`, `parseNat`, `joi
 Oracles (inputs supplied by the harness from the real libraries): `sha` (SHA-256), `b64` (`base64.URLEncoding`),
 the verdict of `pow.VerifySolution` (`powRes`, modelled and proved in C31), x509 parsing (`parseOK`),
 `oldCert.Verify` against the client CA with ExtKeyUsageClientAuth (`caVerified`), the certificate's public key.
+
+The trust pool of `RenewCertificate` is modelled too (`trustVerdict`, `renewChain`): the server's `ClientCA` is a
+`tls.Certificate`, i.e. a CHAIN of DER blobs (client CA first, then whatever the PEM bundle carried: its parent, the root, …).
+Per chain element the harness supplies the x509 oracle "is this element parseable, and does the presented certificate
+verify (ClientAuth) with that element as the ONLY root"; the code trusts `ClientCA.Certificate[0]` and nothing else.
 -/
 namespace Specter.C32
 open Specter.C31 (Bytes dec parseNat join colon)
@@ -100,5 +105,42 @@ def renew (derEmpty parseOK caVerified : Bool) (cn : Bytes) (powRes : C31.Res) (
     | some k =>
       if powKey ≠ k then .error .keyMismatch
       else .ok { cn := cn, key := powKey }
+
+/-- One element of `ClientCA.Certificate` as seen by the presented certificate:
+`none` = the DER blob is not a parseable certificate; `some b` = it parses and `oldCert.Verify` with that certificate as
+the only root (KeyUsages = ClientAuth) says `b`. -/
+abbrev ChainElem := Option Bool
+
+inductive TrustRes
+  | noChain        -- `p.ClientCA.Certificate[0]` on an empty chain: index out of range (Go panics)
+  | caUnparsable   -- `x509.ParseCertificate(p.ClientCA.Certificate[0])` failed: twirp internal error
+  | verdict (b : Bool)
+  deriving DecidableEq, Repr
+
+/-- The pool is `{ClientCA.Certificate[0]}`: only the FIRST element of the chain is parsed, added and consulted.
+Certificates bundled behind the client CA (its issuer, a root, anything else in the PEM file) are not trust anchors. -/
+def trustVerdict : List ChainElem → TrustRes
+  | [] => .noChain
+  | none :: _ => .caUnparsable
+  | some b :: _ => .verdict b
+
+inductive RenewChainErr
+  | noChain | caUnparsable | renew (e : RenewErr)
+  deriving DecidableEq, Repr
+
+def liftRenew : Except RenewErr Cert → Except RenewChainErr Cert
+  | .ok c => .ok c
+  | .error e => .error (.renew e)
+
+/-- `RenewCertificate` over the whole `ClientCA` chain, in the order of the Go code: the DER checks come before the chain is
+touched; then the pool is built from element 0; the rest is `renew` with that verdict. -/
+def renewChain (derEmpty parseOK : Bool) (chain : List ChainElem) (cn : Bytes) (powRes : C31.Res) (powKey : Bytes)
+    (certKey : Option Bytes) : Except RenewChainErr Cert :=
+  if derEmpty then .error (.renew .required) else
+  if !parseOK then .error (.renew .parse) else
+  match trustVerdict chain with
+  | .noChain => .error .noChain
+  | .caUnparsable => .error .caUnparsable
+  | .verdict b => liftRenew (renew false true b cn powRes powKey certKey)
 
 end Specter.C32
